@@ -465,6 +465,38 @@ def boundary_cases():
     return out
 
 
+def small_scope_cases():
+    """Every history of length <= 4 over a 7-letter alphabet of updates (relative to the newest
+    slot: in order, duplicate, out of order, gap, jump = capacity, too old, oldest slot; valid or
+    missing alternating by position) at capacities 1..3, queried by the full window and at()."""
+    import itertools
+    out = []
+    p, a = 1_000_000, 0
+    B = T0 // p
+    letters = ["next", "dup", "back", "gap", "jump", "old", "edge"]
+    for cap in (1, 2, 3):
+        for n in (1, 2, 3, 4):
+            for word in itertools.product(letters, repeat=n):
+                for miss in (0, 1):
+                    newest, steps, val = None, [], 10
+                    for i, w in enumerate(word):
+                        if newest is None:
+                            k = B
+                        else:
+                            k = {"next": newest + 1, "dup": newest, "back": newest - 1, "gap": newest + 2,
+                                 "jump": newest + cap, "old": newest - cap, "edge": newest - cap + 1}[w]
+                        v = None if (i % 2 == miss and w in ("dup", "back", "gap", "next")) else val
+                        val += 1
+                        if newest is None or k >= newest - cap + 1:
+                            newest = k if newest is None else max(newest, k)
+                        q = [{"k": "wi", "s": None, "e": None, "fill": "nan"},
+                             {"k": "wt", "s": (newest - cap) * p + 400_000, "e": (newest + 1) * p - 400_000, "fill": -5},
+                             {"k": "ai", "i": 0}, {"k": "ai", "i": -1}, {"k": "ai", "i": 1}]
+                        steps.append({"op": "u", "t": k * p, "v": v, "q": q})
+                    out.append({"cap": cap, "period": p, "align": a, "kind": "list", "steps": steps})
+    return out
+
+
 def shrink_case(case):
     st = case["steps"]
     for i in range(len(st) - 1, -1, -1):
@@ -485,6 +517,12 @@ def shrink_case(case):
 HEADER = """From Verif Require Import model.RingBuffer.
 Definition check := check_case.
 """
+
+
+def rel(t):
+    """times are handed to Coq relative to T0 (16-digit literals are what makes coqc slow);
+    the align point is shifted by the same amount, so slot numbers are unchanged."""
+    return None if t is None else t - T0
 
 
 def c_cell(v):
@@ -514,22 +552,22 @@ def c_query(q):
     if k == "si":
         return f"(QWinIdx {copt(q['s'])} {copt(q['e'])} (Some None))"
     if k == "wt":
-        return f"(QWinTs {cZ(q['s'])} {cZ(q['e'])} {c_fill(q['fill'])})"
+        return f"(QWinTs {cZ(rel(q['s']))} {cZ(rel(q['e']))} {c_fill(q['fill'])})"
     if k == "st":
-        return f"(QWinTs {cZ(q['s'])} {cZ(q['e'])} (Some None))"
+        return f"(QWinTs {cZ(rel(q['s']))} {cZ(rel(q['e']))} (Some None))"
     if k == "wm":
         return "QWinMixed"
     if k == "ai":
         return f"(QAtIdx {cZ(q['i'])})"
     if k == "at":
-        return f"(QAtTs {cZ(q['t'])})"
+        return f"(QAtTs {cZ(rel(q['t']))})"
     raise AssertionError(q)
 
 
 def c_obs(o):
-    gaps = "[" + "; ".join(f"({cZ(g[0])}, {cZ(g[1])})" for g in o["gaps"]) + "]"
-    return (f"(mkObs {'true' if o['rej'] else 'false'} {cZ(o['cv'])} {cZ(o['cc'])} {copt(o['old'])} {copt(o['new'])} "
-            f"{gaps} {clist(o['cells'], c_cell)} {copt(o['bn'])})")
+    gaps = "[" + "; ".join(f"({cZ(rel(g[0]))}, {cZ(rel(g[1]))})" for g in o["gaps"]) + "]"
+    return (f"(mkObs {'true' if o['rej'] else 'false'} {cZ(o['cv'])} {cZ(o['cc'])} {copt(rel(o['old']))} {copt(rel(o['new']))} "
+            f"{gaps} {clist(o['cells'], c_cell)} {copt(rel(o['bn']))})")
 
 
 def c_step(st, o):
@@ -538,7 +576,7 @@ def c_step(st, o):
         head = "SRoundTrip"
     else:
         v = st["v"]
-        head = f"(SUpdate {cZ(st['t'])} {c_cell(None if v in (None, 'nan') else v)})"
+        head = f"(SUpdate {cZ(rel(st['t']))} {c_cell(None if v in (None, 'nan') else v)})"
     return f"({head}, {c_obs(o)}, {qs})"
 
 
@@ -546,36 +584,51 @@ def case_term(case, obs):
     cap = obs["cap"]
     init = clist([JUNK - i for i in range(cap)], lambda v: f"(Some {cZ(v)})")
     steps = "[" + ";\n    ".join(c_step(s, o) for s, o in zip(case["steps"], obs["steps"])) + "]"
-    return f"({cZ(case['period'])}, {cZ(case['align'])}, {init},\n   {steps})"
+    return f"({cZ(case['period'])}, {cZ(rel(case['align']))}, {init},\n   {steps})"
 
 
 def show_term(case, obs):
     cap = obs["cap"]
     init = clist([JUNK - i for i in range(cap)], lambda v: f"(Some {cZ(v)})")
     steps = "[" + "; ".join(
-        "(" + ("SRoundTrip" if s["op"] == "rt" else f"(SUpdate {cZ(s['t'])} {c_cell(None if s['v'] in (None, 'nan') else s['v'])})")
+        "(" + ("SRoundTrip" if s["op"] == "rt" else f"(SUpdate {cZ(rel(s['t']))} {c_cell(None if s['v'] in (None, 'nan') else s['v'])})")
         + ", [" + "; ".join(c_query(q) for q in s.get("q", [])) + "])" for s in case["steps"]) + "]"
-    return f"run_show {cZ(case['period'])} {cZ(case['align'])} {init} {steps}"
+    return f"run_show {cZ(case['period'])} {cZ(rel(case['align']))} {init} {steps}"
 
 
 # ----------------------------------------------------------------------------- stream
 class RingStream(Stream):
     name = "history"
     coq_header = HEADER
-    n_quick = 4800
+    n_quick = 2400
     n_thorough = 60000
 
     def gen(self, rng, tier):
-        yield from boundary_cases()
+        cases = boundary_cases()
         n = self.n_quick if tier == "quick" else self.n_thorough
         for i in range(n):
             if i % 12 == 0:     # dense: ~20 queries after every update
-                yield gen_case(rng, 18, 22, maxlen=40)
+                cases.append(gen_case(rng, 18, 22, maxlen=40))
             else:
-                yield gen_case(rng, 2, 4, maxlen=40)
+                cases.append(gen_case(rng, 2, 4, maxlen=40))
+        if tier != "quick":
+            cases += small_scope_cases()
+        # the implementation runs are independent of each other: do them on all cores and hand
+        # the observations to run_impl() below (same function, same interpreter, forked workers)
+        self._keep = cases
+        self._cache = {}
+        try:
+            import multiprocessing as mp
+            with mp.get_context("fork").Pool(int(os.environ.get("VERIF_JOBS", "16"))) as pool:
+                for c, o in zip(cases, pool.map(run_history, cases, chunksize=16)):
+                    self._cache[id(c)] = o
+        except (OSError, ValueError):
+            self._cache = {}
+        yield from cases
 
     def run_impl(self, case):
-        return run_history(case)
+        o = getattr(self, "_cache", {}).pop(id(case), None)
+        return o if o is not None else run_history(case)
 
     def to_coq(self, case, obs):
         return case_term(case, obs)
